@@ -599,6 +599,8 @@ enum SOp {
     LookIdxAll { k: usize, n: u64 },
     /// time_ms= at t0_ms + j * step_ms, j < cnt
     LookTimeAll { k: usize, t0_ms: u64, step_ms: u64, cnt: u64 },
+    /// time_ms= for every listed time
+    LookTimes { k: usize, ts_ms: Vec<u64> },
 }
 #[derive(Clone, Debug, Serialize, Deserialize)]
 struct SessCase {
@@ -686,7 +688,8 @@ pub enum Ev {
     Sent(String),
     Text(String),
     FileInfo(u32),
-    Lifecycles(Vec<(u32, u64)>),
+    /// (id, start_time as sent to the client, ecu, resume_time)
+    Lifecycles(Vec<(u32, u64, u32, Option<u64>)>),
     Msgs(u32, Vec<RMsg>),
     StreamInfo { id: u32, nr_stream: u32, processed: u32, total: u32 },
     Other,
@@ -739,7 +742,7 @@ impl Client {
             Message::Text(t) => Ev::Text(t),
             Message::Binary(d) => match bincode::decode_from_slice::<remote_types::BinType, _>(&d, BINCODE_CONFIG) {
                 Ok((BinType::FileInfo(f), _)) => Ev::FileInfo(f.nr_msgs),
-                Ok((BinType::Lifecycles(l), _)) => Ev::Lifecycles(l.iter().map(|x| (x.id, x.start_time)).collect()),
+                Ok((BinType::Lifecycles(l), _)) => Ev::Lifecycles(l.iter().map(|x| (x.id, x.start_time, x.ecu, x.resume_time)).collect()),
                 Ok((BinType::DltMsgs((id, ms)), _)) => Ev::Msgs(
                     id,
                     ms.iter()
@@ -922,7 +925,8 @@ struct IdRec {
 
 struct SessOut {
     /// lookups per branch: index x (file order | time sorted) x (filtered | unfiltered), time x (filtered | unfiltered)
-    counts: [u64; 6],
+    /// + time lookups checked by the oracle, of those: where the presented start times answer differently, not checked
+    counts: [u64; 9],
     obs: O,
     verdict: Verdict,
     file_coq: String,
@@ -983,7 +987,7 @@ fn run_session(srv_port: u16, c: &SessCase, dir: &std::path::Path, uniq: u64) ->
     }
     let open = cl.cmd(&format!("open {}", open_js), &["ok: open", "err: open"]);
     if !open.as_deref().unwrap_or("").starts_with("ok: open") {
-        return SessOut { counts: [0; 6], obs: O::T(vec![O::L(97)]), verdict: sess_fail("open", format!("{:?} {:?}", open, cl.dead)), file_coq: "[]".into(), tags };
+        return SessOut { counts: [0; 9], obs: O::T(vec![O::L(97)]), verdict: sess_fail("open", format!("{:?} {:?}", open, cl.dead)), file_coq: "[] []".into(), tags };
     }
     if c.preload {
         finished = cl.wait_finished(n);
@@ -1217,6 +1221,24 @@ fn run_session(srv_port: u16, c: &SessCase, dir: &std::path::Path, uniq: u64) ->
                 }
                 op_obs.push(O::T(os));
             }
+            SOp::LookTimes { k, ts_ms } => {
+                if !finished {
+                    settle!();
+                }
+                let id = cur_id(&streams, *k);
+                let mut os = vec![];
+                for t_ms in ts_ms {
+                    let r = cl.cmd(&format!("stream_binary_search {} time_ms={}", id, t_ms), &["ok: stream_binary_search", "err: stream_binary_search"]).unwrap_or_default();
+                    match parse_id_after(&r, "{\"filtered_msg_index\":") {
+                        Some(p) if r.starts_with("ok:") => {
+                            os.push(O::T(vec![O::L(0), O::n(p)]));
+                            chks.push(Chk::LookTime { k: *k, t_ms: *t_ms, pos: p as u64 });
+                        }
+                        _ => os.push(O::T(vec![O::L(1)])),
+                    }
+                }
+                op_obs.push(O::T(os));
+            }
             SOp::LookTime { k, t_ms } => {
                 if !finished {
                     settle!();
@@ -1261,18 +1283,13 @@ fn run_session(srv_port: u16, c: &SessCase, dir: &std::path::Path, uniq: u64) ->
     if cl.log.iter().any(|e| matches!(e, Ev::FileInfo(k) if *k < n) || matches!(e, Ev::StreamInfo { processed, .. } if *processed < n)) {
         tags.push("sess_saw_partial_load".into());
     }
-    // lifecycle start times (latest announcement wins)
-    let mut lcs: BTreeMap<u32, u64> = BTreeMap::new();
-    for e in &cl.log {
-        if let Ev::Lifecycles(l) = e {
-            for (id, st) in l {
-                lcs.insert(*id, *st);
-            }
-        }
-    }
+    // the lifecycle table (see lc_table): start times computed from the delivered messages, independently of what the
+    // server announces; the time of a message = start of its lifecycle + timestamp
+    let lct = lc_table(&cl.log, &probe);
+    tags.extend(lct.tags());
     // ---------------- oracle
     // (1) the probe is the file: same messages (index, times, ids, counters, payload text), file order unless sorted
-    let key_of = |m: &RMsg| -> u64 { lcs.get(&m.lc).map(|s| s + m.ts as u64 * 100).unwrap_or(m.rt) };
+    let key_of = |m: &RMsg| -> u64 { lct.time_of(m) };
     if viol.is_none() {
         if probe.len() != truth_file.len() {
             viol = Some(sess_fail("unfiltered_stream_is_file", format!("{} messages streamed, file has {}", probe.len(), truth_file.len())));
@@ -1405,6 +1422,7 @@ fn run_session(srv_port: u16, c: &SessCase, dir: &std::path::Path, uniq: u64) ->
         }
     }
     // (3) searches and lookups (they were asked in settled states: the stream's sequence is complete)
+    let (mut n_time_checked, mut n_time_discriminating, mut n_time_unchecked) = (0u64, 0u64, 0u64);
     if viol.is_none() {
         for ch in &chks {
             match ch {
@@ -1461,13 +1479,31 @@ fn run_session(srv_port: u16, c: &SessCase, dir: &std::path::Path, uniq: u64) ->
                     }
                 }
                 Chk::LookTime { k, t_ms, pos } => {
-                    if keys_monotone {
+                    // the clause presupposes that all_msgs is partitioned by "time < requested" (a log ordered by time is,
+                    // for every requested time): no message not before the requested time is followed by one before it
+                    let t = t_ms * 1000;
+                    let first = probe.iter().position(|m| key_of(m) >= t).unwrap_or(probe.len());
+                    let partitioned = probe[first..].iter().all(|m| key_of(m) >= t);
+                    if lct.usable && partitioned {
                         let seq = seq_of(&streams[*k].fs);
-                        let t = t_ms * 1000;
                         let want = seq.iter().position(|q| key_of(&probe[*q]) >= t).unwrap_or(seq.len()) as u64;
-                        if *pos != want {
-                            viol = Some(sess_fail("lookup_time_first_not_before", format!("time {} ms: got {}, first stream message not before it is at {}", t_ms, pos, want)));
+                        n_time_checked += 1;
+                        // would the start times as sent to the client (BinLifecycle.start_time) give another answer?
+                        let alt = seq.iter().position(|q| lct.presented_time_of(&probe[*q]) >= t).unwrap_or(seq.len()) as u64;
+                        if alt != want {
+                            n_time_discriminating += 1;
                         }
+                        if *pos != want {
+                            viol = Some(sess_fail(
+                                "lookup_time_first_not_before",
+                                format!(
+                                    "time {} ms: got {}, first stream message not before it is at {} (message times = start of the lifecycle + timestamp, start = min(reception - timestamp) over the lifecycle's messages; lifecycles {:?})",
+                                    t_ms, pos, want, lct.rows.iter().map(|r| (r.rank, r.start, r.resume)).collect::<Vec<_>>()
+                                ),
+                            ));
+                        }
+                    } else {
+                        n_time_unchecked += 1;
                     }
                 }
             }
@@ -1477,8 +1513,20 @@ fn run_session(srv_port: u16, c: &SessCase, dir: &std::path::Path, uniq: u64) ->
         }
     }
     // the file as the model sees it: all_msgs order (ecu, apid, ctid, time key, index), run-length encoded
-    let file_coq = file_runs_coq(&probe, &key_of, &kind);
-    let mut counts = [0u64; 6];
+    let file_coq = format!("{} {}", lct.coq(), file_runs_coq(&probe, &lct, &kind));
+    if n_time_checked > 0 {
+        tags.push("look_time_checked".into());
+    }
+    if n_time_discriminating > 0 {
+        tags.push("look_time_where_presented_start_answers_differently".into());
+    }
+    if n_time_unchecked > 0 {
+        tags.push("look_time_not_partitioned_at_requested_time".into());
+    }
+    let mut counts = [0u64; 9];
+    counts[6] = n_time_checked;
+    counts[7] = n_time_discriminating;
+    counts[8] = n_time_unchecked;
     for ch in &chks {
         match ch {
             Chk::LookIdx { k, .. } => counts[(c.sorted as usize) * 2 + (!cf_active(&streams[*k].fs)) as usize] += 1,
@@ -1653,28 +1701,173 @@ fn search_truth(probe: &[RMsg], seq: &[usize], start: u64, maxr: u64, fs: &Vec<C
     (idxs, if i < seq.len() { Some(i as u64) } else { None })
 }
 
-fn file_runs_coq(probe: &[RMsg], key_of: &dyn Fn(&RMsg) -> u64, kind: &dyn Fn(&RMsg) -> (u8, u8, u8)) -> String {
-    // (cnt, ecu, apid, ctid, t0, dt, idx0): messages of a run share the ids, time and index advance linearly
-    let mut runs: Vec<(u64, u8, u8, u8, u64, u64, u64)> = vec![];
+fn file_runs_coq(probe: &[RMsg], lct: &LcTable, kind: &dyn Fn(&RMsg) -> (u8, u8, u8)) -> String {
+    // (cnt, ecu, apid, ctid, lifecycle, ts0, dts, rt0, drt, idx0): messages of a run share the ids and the lifecycle;
+    // timestamp, reception time and index advance linearly
+    struct R {
+        cnt: u64,
+        k: (u8, u8, u8),
+        lc: u64,
+        ts0: u64,
+        dts: u64,
+        rt0: u64,
+        drt: u64,
+        i0: u64,
+    }
+    let mut runs: Vec<R> = vec![];
     for m in probe {
-        let (e, a, c) = kind(m);
-        let t = key_of(m);
-        let idx = m.index as u64;
+        let k = kind(m);
+        let lc = lct.rank_of(m.lc);
+        let (ts, rt, idx) = (m.ts as u64, m.rt, m.index as u64);
         if let Some(r) = runs.last_mut() {
-            let same = r.1 == e && r.2 == a && r.3 == c && idx == r.6 + r.0;
-            if same && r.0 == 1 && t >= r.4 {
-                r.5 = t - r.4;
-                r.0 = 2;
+            let same = r.k == k && r.lc == lc && idx == r.i0 + r.cnt;
+            if same && r.cnt == 1 && ts >= r.ts0 && rt >= r.rt0 {
+                r.dts = ts - r.ts0;
+                r.drt = rt - r.rt0;
+                r.cnt = 2;
                 continue;
             }
-            if same && r.0 >= 2 && t == r.4 + r.0 * r.5 {
-                r.0 += 1;
+            if same && r.cnt >= 2 && ts == r.ts0 + r.cnt * r.dts && rt == r.rt0 + r.cnt * r.drt {
+                r.cnt += 1;
                 continue;
             }
         }
-        runs.push((1, e, a, c, t, 0, idx));
+        runs.push(R { cnt: 1, k, lc, ts0: ts, dts: 0, rt0: rt, drt: 0, i0: idx });
     }
-    clist(&runs.iter().map(|r| format!("({}, {}, {}, {}, {}, {}, {})", r.0, r.1, r.2, r.3, r.4, r.5, r.6)).collect::<Vec<_>>())
+    clist(&runs.iter().map(|r| format!("({}, {}, {}, {}, {}, {}, {}, {}, {}, {})", r.cnt, r.k.0, r.k.1, r.k.2, r.lc, r.ts0, r.dts, r.rt0, r.drt, r.i0)).collect::<Vec<_>>())
+}
+
+// ---------------------------------------------------------------- the lifecycle table of a session
+/// One lifecycle as the oracle sees it.  `start` is computed from the delivered messages only: the minimum of
+/// (reception time - timestamp) over the messages that carry the lifecycle id (the documented meaning of
+/// `Lifecycle::start_time`, the reference of the message timestamps) - NOT what the server announces in `BinLifecycle`
+/// (that is `resume_start_time()`, a presentation value).
+struct LcRow {
+    id: u32,
+    rank: u64, // 1 + order of first appearance in all_msgs
+    ecu: u32,
+    start: u64,
+    first_idx: u32,
+    n: u64,
+    announced: Option<(u64, Option<u64>)>, // latest BinLifecycle: (start_time, resume_time)
+    /// for a lifecycle announced as resumed: the start of the lifecycle it resumes (the preceding lifecycle of the ECU)
+    resume: Option<u64>,
+    explained: bool,
+}
+struct LcTable {
+    rows: Vec<LcRow>,
+    by_id: BTreeMap<u32, usize>,
+    /// the announcements are what the computed table explains (see lc_table); otherwise no time lookup is judged
+    usable: bool,
+    from_announcements: bool,
+}
+fn presented_start(start: u64, resume: Option<u64>) -> u64 {
+    match resume {
+        Some(o) if start <= o => o + 1,
+        _ => start,
+    }
+}
+impl LcTable {
+    fn time_of(&self, m: &RMsg) -> u64 {
+        match self.by_id.get(&m.lc) {
+            Some(j) => self.rows[*j].start + m.ts as u64 * 100,
+            None => m.rt,
+        }
+    }
+    /// the time computed from the start time as sent to the client
+    fn presented_time_of(&self, m: &RMsg) -> u64 {
+        match self.by_id.get(&m.lc) {
+            Some(j) => presented_start(self.rows[*j].start, self.rows[*j].resume) + m.ts as u64 * 100,
+            None => m.rt,
+        }
+    }
+    fn rank_of(&self, id: u32) -> u64 {
+        self.by_id.get(&id).map(|j| self.rows[*j].rank).unwrap_or(0)
+    }
+    fn coq(&self) -> String {
+        clist(&self.rows.iter().map(|r| format!("({}, {}, {})", r.rank, r.start, match r.resume { Some(o) => format!("Some {}", o), None => "None".to_string() })).collect::<Vec<_>>())
+    }
+    fn tags(&self) -> Vec<String> {
+        let mut t = vec![format!("lc_count_{}", if self.rows.len() >= 5 { "5plus".to_string() } else { self.rows.len().to_string() })];
+        let ecus: std::collections::BTreeSet<u32> = self.rows.iter().map(|r| r.ecu).collect();
+        if ecus.len() >= 2 {
+            t.push("lc_several_ecus".into());
+        }
+        if ecus.iter().any(|e| self.rows.iter().filter(|r| r.ecu == *e).count() >= 2) {
+            t.push("lc_several_per_ecu".into());
+        }
+        for r in &self.rows {
+            if let Some(o) = r.resume {
+                t.push(if r.start > o { "lc_resumed_start_later".into() } else if r.start == o { "lc_resumed_start_equal_origin".into() } else { "lc_resumed_start_before_origin".into() });
+                // a chain: the origin is itself a resumed lifecycle
+                if self.rows.iter().any(|q| q.ecu == r.ecu && q.first_idx < r.first_idx && q.resume.is_some()) {
+                    t.push("lc_resume_chain".into());
+                }
+            }
+        }
+        if self.rows.iter().any(|r| r.resume.is_none()) && self.rows.iter().any(|r| r.resume.is_some()) {
+            t.push("lc_plain_and_resumed".into());
+        }
+        if !self.usable {
+            t.push("lc_table_not_explained".into());
+        }
+        if self.from_announcements {
+            t.push("lc_table_from_announcements".into());
+        }
+        t.sort();
+        t.dedup();
+        t
+    }
+}
+/// The table is built from the messages of the unfiltered probe stream (lifecycle id, reception time, timestamp, ecu).
+/// The server's announcements (`Lifecycles` frames, latest wins) are used for two things only: which lifecycles are
+/// resumed ones (`resume_time` present; the origin is the preceding lifecycle of that ECU), and a consistency check -
+/// every announced start must be `resume_start_time()` of the computed entry.  If that fails (a lifecycle whose start the
+/// detector did not take from all of its messages, ...) the time lookups of the session are not judged.
+fn lc_table(log: &[Ev], probe: &[RMsg]) -> LcTable {
+    let mut ann: BTreeMap<u32, (u64, Option<u64>)> = BTreeMap::new();
+    for e in log {
+        if let Ev::Lifecycles(l) = e {
+            for (id, st, _, res) in l {
+                ann.insert(*id, (*st, *res));
+            }
+        }
+    }
+    let mut rows: Vec<LcRow> = vec![];
+    let mut by_id: BTreeMap<u32, usize> = BTreeMap::new();
+    for m in probe {
+        let j = *by_id.entry(m.lc).or_insert_with(|| {
+            rows.push(LcRow { id: m.lc, rank: rows.len() as u64 + 1, ecu: m.ecu, start: u64::MAX, first_idx: u32::MAX, n: 0, announced: ann.get(&m.lc).cloned(), resume: None, explained: false });
+            rows.len() - 1
+        });
+        let r = &mut rows[j];
+        r.start = std::cmp::min(r.start, m.rt.saturating_sub(m.ts as u64 * 100));
+        r.first_idx = std::cmp::min(r.first_idx, m.index);
+        r.n += 1;
+    }
+    for j in 0..rows.len() {
+        if let Some((_, Some(_))) = rows[j].announced {
+            let origin = (0..rows.len()).filter(|q| rows[*q].ecu == rows[j].ecu && rows[*q].first_idx < rows[j].first_idx).max_by_key(|q| rows[*q].first_idx);
+            rows[j].resume = origin.map(|q| rows[q].start);
+        }
+    }
+    for r in rows.iter_mut() {
+        r.explained = match r.announced {
+            Some((st, res)) => st == presented_start(r.start, r.resume) && res.is_some() == r.resume.is_some(),
+            None => false,
+        };
+    }
+    let mut usable = rows.iter().all(|r| r.explained);
+    let mut from_announcements = false;
+    if !usable && rows.iter().all(|r| matches!(r.announced, Some((_, None)))) {
+        // no resumed lifecycle anywhere: the announced start IS start_time (what the check used before it computed the table)
+        for r in rows.iter_mut() {
+            r.start = r.announced.unwrap().0;
+        }
+        usable = true;
+        from_announcements = true;
+    }
+    LcTable { rows, by_id, usable, from_announcements }
 }
 
 fn sop_coq(o: &SOp) -> String {
@@ -1690,10 +1883,12 @@ fn sop_coq(o: &SOp) -> String {
         SOp::WindowText { settle, k, a, b, .. } => format!("SWindow {} {} {} {}", cbool(*settle), k, a.unwrap_or(0), b.unwrap_or(0)),
         SOp::LookIdxAll { k, n } => format!("SLookIdxAll {} {}", k, n),
         SOp::LookTimeAll { k, t0_ms, step_ms, cnt } => format!("SLookTimeAll {} {} {} {}", k, t0_ms * 1000, step_ms * 1000, cnt),
+        SOp::LookTimes { k, ts_ms } => format!("SLookTimes {} {}", k, cnums(&ts_ms.iter().map(|t| t * 1000).collect::<Vec<u64>>())),
     }
 }
 
 fn sess_record(sink: &mut Sink, c: SessCase, out: SessOut) {
+    // out.file_coq = the lifecycle table and the file
     let input_coq = format!("(CSess {} {} {} {})", cbool(c.sorted), cbool(c.preload), out.file_coq, clist(&c.ops.iter().map(sop_coq).collect::<Vec<_>>()));
     let mut tags = out.tags.clone();
     for o in &c.ops {
@@ -1712,6 +1907,7 @@ fn sess_record(sink: &mut Sink, c: SessCase, out: SessOut) {
                 SOp::WindowText { .. } => "op_window_text",
                 SOp::LookIdxAll { .. } => "op_lookup_index_all",
                 SOp::LookTimeAll { .. } => "op_lookup_time_all",
+                SOp::LookTimes { .. } => "op_lookup_times",
             }
             .to_string(),
         );
@@ -1872,6 +2068,144 @@ fn gen_lookup_sess(rng: &mut Rng, sorted: bool, collect: u8, plugin: bool) -> Se
         ops.push(SOp::LookTimeAll { k, t0_ms: BASE_US / 1000 - 1, step_ms, cnt: span_ms / step_ms + 2 });
     }
     SessCase { collect, plugin, sorted, preload: rng.chance(2, 3), file, ops }
+}
+
+
+// ---------------------------------------------------------------- logs whose lifecycle table has entries of every kind
+/// Kinds of lifecycle segments of one ECU (the detector decides; the oracle takes the lifecycles from what is delivered):
+/// 0 plain: the first lifecycle, or a reboot (timestamps restart after a pause of 2-9 s);
+/// 1 resumed, start later than the origin's: the reception times jump by 12-36 s, the timestamps go on;
+/// 2 resumed, start moved BEFORE the origin's: as 1, then the timestamp clock runs ahead and the later messages arrive
+///   with a delay that is `back` smaller than the origin's smallest delay (min(reception - timestamp) moves before the
+///   origin's start: `resume_start_time()` = origin's start + 1 differs from `start_time`);
+/// 3 as 2 with `back` = 0: start exactly equal to the origin's.
+/// Returns the file (reception order over all ECUs) and the times (ms) at and next to every message time, before the
+/// first / after the last message of every segment.
+fn gen_lc_file(rng: &mut Rng, plan: &[Vec<u8>]) -> (Vec<FRun>, Vec<u64>) {
+    // (reception in 0.1 ms relative to BASE, ecu index, timestamp, delay)
+    let mut all: Vec<(u64, usize, u32, u32)> = vec![];
+    let mut times: Vec<u64> = vec![];
+    for (ei, segs) in plan.iter().enumerate() {
+        let mut jit_lc: u32 = 700_000 + rng.below(30) as u32 * 1_000 + ei as u32 * 3_330;
+        let mut ts: u32 = 1_000 + rng.below(50) as u32 * 10;
+        let mut last_rt: u64 = 0;
+        for (si, kind) in segs.iter().enumerate() {
+            let n = 3 + rng.below(5) as u32;
+            let step = *rng.pick(&[1_000u32, 2_500, 5_000, 10_000]);
+            // the message with the smallest delay of the segment (it defines the start) is not always the first one: the
+            // start estimate of a lifecycle moves while its messages arrive
+            let z = if rng.chance(1, 3) { 0 } else { rng.below(n as u64) as u32 };
+            let jitter = |rng: &mut Rng, first: bool| -> u32 {
+                if first {
+                    0
+                } else {
+                    *rng.pick(&[0u32, 0, 10, 30, 70, 200, 3, 1])
+                }
+            };
+            let mut seg: Vec<(u32, u32)> = vec![]; // (timestamp, delay)
+            match *kind {
+                0 => {
+                    if si > 0 {
+                        let pause = 20_000 + rng.below(8) as u64 * 10_000;
+                        ts = 1_000 + rng.below(30) as u32 * 10;
+                        jit_lc = (last_rt + pause - ts as u64) as u32;
+                    }
+                    for j in 0..n {
+                        seg.push((ts, jit_lc + jitter(rng, j == z)));
+                        ts += step;
+                    }
+                }
+                1 => {
+                    jit_lc += 120_000 + rng.below(25) as u32 * 10_000;
+                    for j in 0..n {
+                        seg.push((ts, jit_lc + jitter(rng, j == z)));
+                        ts += step;
+                    }
+                }
+                _ => {
+                    let gap = 120_000 + rng.below(20) as u32 * 10_000;
+                    let back = if *kind == 3 { 0 } else { *rng.pick(&[1u32, 10, 1_000, 10_000, 30_000, 50_000, 100_000, 200_000]) };
+                    let back = std::cmp::min(back, jit_lc);
+                    for _ in 0..(1 + rng.below(2)) {
+                        seg.push((ts, jit_lc + gap + jitter(rng, false)));
+                        ts += step;
+                    }
+                    ts += gap + back + 200; // the timestamps run ahead: the reception times keep increasing
+                    jit_lc -= back;
+                    for j in 0..n {
+                        seg.push((ts, jit_lc + jitter(rng, j == z)));
+                        ts += step;
+                    }
+                }
+            }
+            // the times of the segment's messages (intended lifecycle start = BASE + smallest delay)
+            let key_ms = |t: u32| -> u64 { (BASE_US + (jit_lc as u64 + t as u64) * 100) / 1000 };
+            times.push(key_ms(seg[0].0).saturating_sub(1 + rng.below(40)));
+            times.push(key_ms(seg[seg.len() - 1].0) + 2 + rng.below(40));
+            for (t, d) in &seg {
+                times.push(key_ms(*t));
+                times.push(key_ms(*t) + 1);
+                if rng.chance(1, 3) {
+                    times.push(key_ms(*t) + 1 + rng.below(step as u64 / 10));
+                }
+                last_rt = *t as u64 + *d as u64;
+                all.push((last_rt, ei, *t, *d));
+            }
+        }
+    }
+    all.sort_by_key(|m| (m.0, m.1));
+    times.sort();
+    times.dedup();
+    let file = all.iter().map(|(_, ei, t, d)| FRun { cnt: 1, ecu: 1 + *ei as u8, apid: rng.below(3) as u8, ctid: rng.below(2) as u8, ts0: *t, dts: 0, jit: *d }).collect();
+    (file, times)
+}
+
+fn lc_plan(rng: &mut Rng, j: u64) -> Vec<Vec<u8>> {
+    match j % 8 {
+        0 => vec![vec![0, 2]],
+        1 => vec![vec![0, 1], vec![0]],
+        2 => vec![vec![0, 3], vec![0, 0]],
+        3 => vec![vec![0, 2, 1]],
+        4 => vec![vec![0, 1, 2], vec![0, 2]],
+        5 => vec![vec![0, 2, 2]],
+        6 => vec![vec![0, 0, 2], vec![0, 1, 3]],
+        _ => (0..(1 + rng.below(2)))
+            .map(|_| {
+                let mut v = vec![0u8];
+                for _ in 0..(1 + rng.below(3)) {
+                    v.push(rng.below(4) as u8);
+                }
+                v
+            })
+            .collect(),
+    }
+}
+
+/// lookups on logs whose lifecycle table has entries of every kind (plain, resumed with a later start, resumed with the
+/// start moved to / before the origin's, chains, several ECUs in parallel): index= for every index, time_ms= swept across
+/// every lifecycle (before its first message, on and between the message times, after the last), on an unfiltered stream
+/// and on filtered ones (one apid; everything but one ECU / ctid), crossed with the open options (sort on / off)
+fn gen_lc_sess(rng: &mut Rng, j: u64, sorted: bool, collect: u8, plugin: bool) -> SessCase {
+    let plan = lc_plan(rng, j);
+    let (file, times) = gen_lc_file(rng, &plan);
+    let n = file.len() as u64;
+    let neg = if plan.len() >= 2 && rng.chance(2, 3) { (1u8, 0u8, 1 + rng.below(2) as u8, 1u8) } else { (1, 2, rng.below(2) as u8, 1) };
+    let mut ops = vec![
+        SOp::New { settle: true, is_stream: true, binary: true, fs: vec![], start: 0, end: n + 5 },
+        SOp::New { settle: true, is_stream: true, binary: rng.chance(3, 4), fs: vec![(0, 1, rng.below(3) as u8, 1)], start: 0, end: 4 },
+        SOp::New { settle: true, is_stream: true, binary: true, fs: vec![neg], start: 1, end: 3 },
+    ];
+    for k in 0..3usize {
+        ops.push(SOp::LookIdxAll { k, n: n + 1 });
+        ops.push(SOp::LookTimes { k, ts_ms: times.clone() });
+    }
+    // the rest of the machinery on such a log
+    let (start, end) = gen_window(rng, n);
+    ops.push(SOp::Window { settle: true, k: 1, start, end });
+    ops.push(SOp::Pages { k: 0, start: rng.below(3), maxr: 1 + rng.below(4), fs: gen_filters(rng) });
+    ops.push(SOp::New { settle: true, is_stream: false, binary: true, fs: gen_filters(rng), start: 0, end: n });
+    ops.push(SOp::LookTime { k: 1, t_ms: *rng.pick(&times) });
+    SessCase { collect, plugin, sorted, preload: rng.chance(3, 4), file, ops }
 }
 
 /// a small file with messages of all 12 (ecu, apid, ctid) combinations, shuffled, some of them several times
@@ -2123,7 +2457,7 @@ fn run_sessions(cases: Vec<SessCase>) -> Vec<(SessCase, SessOut)> {
             })
             .collect();
         for (j, h) in hs.into_iter().enumerate() {
-            outs[chunk_no * par + j] = Some(h.join().unwrap_or_else(|_| SessOut { counts: [0; 6], obs: O::T(vec![O::L(96)]), verdict: sess_fail("harness_panic", "session thread panicked".into()), file_coq: "[]".into(), tags: vec![] }));
+            outs[chunk_no * par + j] = Some(h.join().unwrap_or_else(|_| SessOut { counts: [0; 9], obs: O::T(vec![O::L(96)]), verdict: sess_fail("harness_panic", "session thread panicked".into()), file_coq: "[] []".into(), tags: vec![] }));
         }
     }
     drop(srv);
@@ -2163,6 +2497,33 @@ fn corpus_lib() -> Vec<LibCase> {
         LibCase { is_stream: false, fs: vec![(0, 1, 1, 0), (3, 1, 2, 0), (3, 0, 1, 2), (1, 1, 0, 0)], start: 0, end: 20, log: all6.clone(), calls: two_calls.clone() },
         LibCase { is_stream: true, fs: vec![(1, 1, 0, 1), (1, 0, 2, 1), (1, 1, 0, 0)], start: 0, end: 20, log: all6, calls: two_calls },
     ]
+}
+
+fn corpus_resumed(sorted: bool) -> SessCase {
+    let mut file: Vec<FRun> = (0..6u32).map(|i| FRun { cnt: 1, ecu: 1, apid: (i % 3) as u8, ctid: 0, ts0: 10_000 + i * 2_000, dts: 0, jit: 100_000 }).collect();
+    file.push(FRun { cnt: 1, ecu: 1, apid: 1, ctid: 0, ts0: 22_000, dts: 0, jit: 300_000 });
+    for j in 0..8u32 {
+        file.push(FRun { cnt: 1, ecu: 1, apid: (j % 3) as u8, ctid: 1, ts0: 273_000 + j * 1_000, dts: 0, jit: 50_000 });
+    }
+    let t = |ms: u64| BASE_US / 1000 + ms;
+    // message times: 11.0 .. 21.0 s (first lifecycle, start 10 s), 7.2 s (the message that opened the resumed lifecycle,
+    // start 5 s), 32.3 .. 33.0 s
+    let times: Vec<u64> = vec![t(0), t(7_200), t(10_999), t(11_000), t(11_001), t(13_000), t(20_500), t(21_000), t(21_001), t(25_000), t(32_299), t(32_300), t(32_301), t(32_650), t(32_700), t(32_999), t(33_000), t(33_001), t(37_300), t(60_000)];
+    SessCase {
+        collect: 0,
+        plugin: false,
+        sorted,
+        preload: true,
+        file,
+        ops: vec![
+            SOp::New { settle: true, is_stream: true, binary: true, fs: vec![], start: 0, end: 100 },
+            SOp::New { settle: true, is_stream: true, binary: true, fs: vec![(0, 1, 1, 1)], start: 0, end: 100 },
+            SOp::LookTimes { k: 0, ts_ms: times.clone() },
+            SOp::LookTimes { k: 1, ts_ms: times },
+            SOp::LookIdxAll { k: 0, n: 16 },
+            SOp::LookIdxAll { k: 1, n: 16 },
+        ],
+    }
 }
 
 fn corpus_sess() -> Vec<SessCase> {
@@ -2310,6 +2671,10 @@ fn corpus_sess() -> Vec<SessCase> {
                 SOp::LookTimeAll { k: 1, t0_ms: t(0) - 1, step_ms: 1, cnt: 20 },
             ],
         },
+        // a lifecycle that resumes the first one (reception gap of 20 s, timestamps go on) and whose start is then moved 5 s
+        // BEFORE the first one's by messages with a smaller delay; time lookups across both, file order and sorted by time
+        corpus_resumed(false),
+        corpus_resumed(true),
         // a query sent right after open on a file that takes a while to parse (repaired: it used to end empty)
         SessCase {
             collect: 0, plugin: false, sorted: false,
@@ -2362,6 +2727,12 @@ fn main() {
     for i in 0..nlook {
         sess.push(gen_lookup_sess(&mut srng, i % 2 == 0, (i % 3) as u8, i % 4 == 1));
     }
+    // lookups on logs whose lifecycle table has entries of every kind, crossed with sort on / off
+    let nlc = if a.count.is_some() { 0 } else if quick { 8 } else { 96 };
+    for i in 0..nlc {
+        let j = i + a.seed;
+        sess.push(gen_lc_sess(&mut srng, j, (i + j / 8) % 2 == 1, (i % 3) as u8, i % 4 == 2));
+    }
     // the combination space of filter sets (streams, queries, searches)
     let ncombo = if a.count.is_some() { 0 } else if quick { 8 } else { 64 };
     let combo0 = if quick { a.seed.wrapping_sub(1).wrapping_mul(8) } else { 0 };
@@ -2379,16 +2750,17 @@ fn main() {
         sess.push(gen_large_sess(&mut srng, n_target));
     }
     let done = run_sessions(sess);
-    let mut counts = [0u64; 6];
+    let mut counts = [0u64; 9];
     for (_, o) in &done {
-        for j in 0..6 {
+        for j in 0..9 {
             counts[j] += o.counts[j];
         }
     }
     sink.extra_stats.insert(
         "lookups_per_branch".into(),
         json!({"index_file_order_filtered": counts[0], "index_file_order_unfiltered": counts[1], "index_time_sorted_filtered": counts[2],
-               "index_time_sorted_unfiltered": counts[3], "time_filtered": counts[4], "time_unfiltered": counts[5]}),
+               "index_time_sorted_unfiltered": counts[3], "time_filtered": counts[4], "time_unfiltered": counts[5],
+               "time_checked_by_oracle": counts[6], "time_checked_where_presented_start_answers_differently": counts[7], "time_not_partitioned_at_requested_time": counts[8]}),
     );
     let (mut large, normal): (Vec<_>, Vec<_>) = done.into_iter().partition(|(c, _)| c.file.iter().map(|r| r.cnt as u64).sum::<u64>() >= 100_000);
     // library level
